@@ -67,7 +67,7 @@ theorem setForm_unknown_atomic (h : Heap) (a : Nat) (name : String) (hn : resolv
 example : resolveForm "no_such_form" = none := by decide +kernel
 
 /-- *every* failing form change leaves the whole heap as it was -/
-theorem setForm_error_atomic (h h' : Heap) (a : Nat) (name : String) (e : Err)
+theorem setForm_unknown_error_atomic (h h' : Heap) (a : Nat) (name : String) (e : Err)
     (hr : setForm h a name = (h', .error e)) : h' = h := by
   unfold setForm at hr
   split at hr
@@ -76,6 +76,66 @@ theorem setForm_error_atomic (h h' : Heap) (a : Nat) (name : String) (e : Err)
     split at hr
     · simp at hr; exact hr.1.symm
     · simp at hr
+
+/-! ### the form setter in the order of effects read from the source -/
+
+/-- with the conversion first and every write after it, the only step that can fail is the conversion, before anything is written -/
+theorem runFormSteps_atomic (steps : List FStep) (hord : atomicOrder steps = true) (h h' : Heap) (s : SV) (g : String)
+    (ferr : Nat → Option Err) (p : Option Val) (k : Nat) (e : Err)
+    (hr : runFormSteps steps h s g ferr p k = (h', .error e)) : h' = h := by
+  -- after a successful conversion (pending value present, no further conversion) nothing fails
+  have tail : ∀ (rest : List FStep), rest.all (· != .convert) = true → ∀ (h1 : Heap) (v : Val) (k1 : Nat) (h2 : Heap) (e1 : Err),
+      runFormSteps rest h1 s g ferr (some v) k1 = (h2, .error e1) → False := by
+    intro rest
+    induction rest with
+    | nil => intro _ h1 v k1 h2 e1 hr1; simp [runFormSteps] at hr1
+    | cons st rest ih =>
+      intro hall h1 v k1 h2 e1 hr1
+      simp only [List.all_cons, Bool.and_eq_true] at hall
+      cases st with
+      | convert => simp at hall
+      | store => simp only [runFormSteps] at hr1; exact ih hall.2 _ v k1 h2 e1 hr1
+      | commit => simp only [runFormSteps] at hr1; exact ih hall.2 _ v k1 h2 e1 hr1
+  cases steps with
+  | nil => simp [atomicOrder] at hord
+  | cons st rest =>
+    cases st with
+    | convert =>
+      simp only [atomicOrder] at hord
+      simp only [runFormSteps] at hr
+      split at hr
+      · simp at hr; exact hr.1.symm
+      · exact absurd hr (fun hr' => tail rest hord h _ (k + 1) h' e hr')
+    | store => simp [atomicOrder] at hord
+    | commit => simp [atomicOrder] at hord
+
+/-- the order of effects read from the AST of `StateVector.form.fset` on this run is an atomic one (re-checked by the kernel on every
+run: a setter that writes values or label before the whole route is converted — e.g. leg by leg — makes this fail) -/
+theorem formSteps_atomicOrder : atomicOrder formSteps = true := by decide +kernel
+
+/-- clause "a form change that fails leaves the object in its previous, consistent form/frame/values", over the order of effects
+extracted from the source: whatever makes `sv.form = name` raise — an unknown name, or the conversion failing on ANY leg of its
+route (it runs on a copy) — the heap is the one before the call, bit for bit -/
+theorem setForm_error_atomic (h h' : Heap) (a : Nat) (name : String) (ferr : Nat → Option Err) (e : Err)
+    (hr : setFormX h a name ferr = (h', .error e)) : h' = h := by
+  unfold setFormX at hr
+  split at hr
+  · simp at hr; exact hr.1.symm
+  · split at hr
+    · simp at hr; exact hr.1.symm
+    · exact runFormSteps_atomic formSteps formSteps_atomicOrder h h' _ _ ferr none 0 e hr
+
+/-- the hand-written `setForm` the other theorems speak about IS the interpretation of the extracted order when no conversion fails -/
+theorem setFormX_eq_setForm (h : Heap) (a : Nat) (name : String) : setFormX h a name noFail = setForm h a name := by
+  have hs : formSteps = [.convert, .store, .commit] := by decide +kernel
+  unfold setFormX setForm setFormTo
+  split
+  · rfl
+  · split
+    · rfl
+    · rw [hs]; simp [runFormSteps, noFail]
+
+example : setFormX C15Ex.h0 6 "keplerian" (fun _ => some .value) = (C15Ex.h0, .error .value) := by decide +kernel
 
 /-- an unknown frame name: nothing is touched -/
 theorem setFrame_unknown_atomic (h : Heap) (a : Nat) (name : String) (hn : resolveFrame name = none) :
@@ -1136,6 +1196,57 @@ theorem getMans_existing (h : Heap) (a l : Nat) (s : SV) (hs : getSV h a = some 
   unfold getMans
   rw [hs]
   simp only [hl]
+
+/-! ## methods that return a new state object: `Frame.transform` called directly -/
+
+theorem copyForm_ok_new (h h1 : Heap) (a n : Nat) (name : String) (wf : WfM h) (hr : copyForm h a name = (h1, .ok n)) : h.length ≤ n := by
+  unfold copyForm at hr
+  split at hr
+  · simp at hr
+  · rename_i h0 n0 he
+    split at hr
+    · simp at hr
+    · simp at hr
+      rw [← hr.2]
+      exact (copy_separate h h0 a n0 wf he).2
+
+/-- clause "conversion methods that return a new object … share no mutable data": the object `frame.transform(sv, new_frame)` returns
+is a new cell and every address stored in a cell created on the way is new or a maneuver object — covariance, maneuver list, metadata
+containers, propagator are copies; the argument is untouched (also when the transformation raises) -/
+theorem transformObj_separate (h : Heap) (a : Nat) (fr : Fr) (wf : WfM h) :
+    Sep h (transformObj h a fr).1 ∧ ∀ n, (transformObj h a fr).2 = .ok n → h.length ≤ n := by
+  unfold transformObj
+  split
+  · exact ⟨Sep.refl h, fun n hn => by simp at hn⟩
+  · rename_i s hs
+    split
+    · exact ⟨Sep.refl h, fun n hn => by simp at hn⟩
+    · have sc := copyForm_separate h a "cartesian" wf
+      split
+      · rename_i h1 e he; rw [he] at sc; exact ⟨sc, fun n hn => by simp at hn⟩
+      · rename_i h1 n he
+        rw [he] at sc
+        have hn := copyForm_ok_new h h1 a n "cartesian" wf he
+        split
+        · rename_i y gy sn hsn
+          obtain ⟨hb, hd, hg⟩ := newSV sc hn hsn
+          rename_i x gx _ _ _ _
+          have s1 := sc.wr hb (.buf (.xform x y sn.val)) (by simp [refsOf])
+          have s2 := s1.wr hd (.dict (Heap.insert "_frame" (.frame (.reg y gy)) sn.items)) (by
+            intro z hz
+            rcases refs_insert hz with h' | h'
+            · simp at h'
+            · exact hg z h')
+          have s3 := setFormTo_sep' s2 hn s.form
+          simp only
+          split
+          · rename_i h3 he3; rw [he3] at s3; exact ⟨s3, fun n' hn' => by simp at hn'; omega⟩
+          · rename_i h3 e3 he3; rw [he3] at s3; exact ⟨s3, fun n' hn' => by simp at hn'⟩
+        · exact ⟨sc, fun n hn => by simp at hn⟩
+        · exact ⟨sc, fun n hn => by simp at hn⟩
+    · exact ⟨Sep.refl h, fun n hn => by simp at hn⟩
+
+example : (transformObj C15Ex.h0 6 (.reg "ITRF" 0)).2 = .ok 12 := by decide +kernel
 
 /-! ## `copy.deepcopy` -/
 
